@@ -117,6 +117,10 @@ pub fn judge(rt: &tokio::runtime::Runtime, r: &mut Report, case: &Case) {
         r.inconclusive("the request did not reach select_object_content");
         return;
     }
+    if resp.bytes_lost_to_the_body_contract > 0 {
+        r.violated("C15/events-after-the-body-declared-its-end", wit(json!({"bytes_a_server_would_not_transmit": resp.bytes_lost_to_the_body_contract, "events_emitted": case.events.iter().map(Ev::kind).collect::<Vec<_>>()})));
+        return;
+    }
     if let Some(e) = &resp.body_error {
         // which event could not be framed?
         let n_ok = decode_all(&resp.body()).map_or(0, |v| v.len());
@@ -270,7 +274,7 @@ pub fn run(ctx: &RunCtx) -> i32 {
         min_cells: 30,
         exhaustive: false,
     };
-    let n = ctx.tier.sz(20_000, 2_000_000);
+    let n = ctx.tier.sz(100_000, 2_000_000);
     let per = 50u64;
     let mut total = par_run(ctx.workers, n.div_ceil(per), |j, r| {
         let rt = new_runtime();
